@@ -143,6 +143,9 @@ func Packet(r *fw.Rand, c PacketClasses) *ref.Packet {
 		words := 0
 		if c.Ext == 9 {
 			words = r.Range(1, 8)
+			if r.Chance(1, 400) { // rare: blocks whose byte length needs more than 16 bits
+				words = r.Pick(16383, 16384, 16385, 32768, 49153, 65535)
+			}
 		} else if r.Bool() {
 			words = 1
 		}
